@@ -108,7 +108,8 @@ CLAIMED = {
             "separators) interleaved with an adversary that re-arranges symlinks inside the sandbox (final and directory links, chains, "
             "relative targets with '..', absolute targets), monitored at the os seam: every host path returned or touched must resolve, "
             "as the kernel resolves it, under the sandbox base; canary bytes must never be read back; the Windows/POSIX mappers are "
-            "checked on the same path grammar.",
+            "checked on the same path grammar, and the emulated Windows API (CreateFileA/W, GetFileSize[Ex], ReadFile, fopen/_wfopen, "
+            "PathIsDirectoryW, called on an x86_32 Jitter) is an actor whose every host open/stat must stay under file_sb.",
             "Trusted: the recording os proxy and realpath() of the host kernel as ground truth; private scratch tree per run.",
             "5 (C46)"),
     "C31": ("simB", "seeded work-list-order simulation of recursive disassembly through a guarded seam, structural oracle from single-instruction decodes; ddmin + replay",
@@ -153,8 +154,11 @@ CLAIMED = {
     "C20": ("simA", "seeded replica comparison: python and gcc backends under one schedule with faults and breakpoints; ddmin + replay",
             "Every seeded case (program, initial state, schedule with tuner, debugger and fault-injector actions, healed and terminal "
             "faults) runs on the python and on the gcc backend with one block per call so that control points coincide; each replica is "
-            "judged against the reference and the two are compared directly (final state digest, breakpoint hit sequence).",
-            "Trusted: as C21; LLVM backend cannot run here (no llvmlite) - the claim covers python and gcc.",
+            "judged against the reference and the two are compared directly (final state digest, code- and memory-breakpoint hit sequences). "
+            "Guests: x86_32, x86_64, ARM and MIPS in both byte orders, AArch64; software exceptions served by host handlers; 30% of the "
+            "cases are operator sweeps (uncommon integer instructions over edge-case values, straight line, both backends).",
+            "Trusted: as C21; LLVM backend cannot run here (no llvmlite) - the claim covers python and gcc; MIPS guests are compared "
+            "replica against replica only.",
             "4 (C20)"),
 }
 
